@@ -1,7 +1,7 @@
 CONSTANTS
-  NK = 7
+  NK = 8
   NV = 1
-  MaxLen = 10
+  MaxLen = 12
   Reads <- ReadsNone
   Lims <- Lims0
   Grow = 0
